@@ -603,7 +603,7 @@ func judgeHonest(c *fw.Ctx, sp *sessionSpec, res *sessionResult, id string) {
 func runRLPX(c *fw.Ctx) {
 	race := c.Leg == "rlpx-race"
 	// 1. honest sessions
-	nHonest := c.Pick(24, 600)
+	nHonest := c.Pick(24, 400)
 	if race {
 		nHonest = 24
 	}
@@ -646,7 +646,7 @@ func runRLPX(c *fw.Ctx) {
 		}
 	}
 	// 3. one fault at every byte offset of a short stream
-	nSweep := c.Pick(1, 12)
+	nSweep := c.Pick(1, 8)
 	if race {
 		nSweep = 0
 	}
@@ -693,7 +693,7 @@ func runRLPX(c *fw.Ctx) {
 		}
 	}
 	// 4. PRNG faults: handshake region, long streams, frame-aligned replay/swap/drop, cut
-	nFault := c.Pick(60, 2400)
+	nFault := c.Pick(60, 1600)
 	if race {
 		nFault = 40
 	}
